@@ -42,18 +42,21 @@ static void body(const uint32_t s1, const uint32_t s2) {
   if (e1) h_expect(e1);
   if (ig1) h_ignore();
   if (s1 & 2) { uint8_t* t = h_new(); h_delete(t); }
+  uint8_t* a2 = 0;
+  if (s1 & 8) a2 = h_new();                    /* bit3 (first test only): a SECOND block allocated in this test and kept */
   if (s1 & 1) a = h_new();
   if (own1) h_own_failure();
   uint64_t f0 = h_failures();
   h_post();
-  uint64_t live1 = (s1 & 1) ? 1 : 0;
+  uint64_t live1 = ((s1 & 1) ? 1 : 0) + ((s1 & 8) ? 1 : 0);
   int leakfail1 = !ig1 && e1 != live1 && !own1;
   OBSERVE(leakfail1);
   CHECK(h_failures() == f0 + (leakfail1 ? 1 : 0), "test 1 gets a leak failure iff it passed its own checks, did not ignore leaks and its outstanding blocks differ from the expected number");
   if (leakfail1) {
     CHECK(nlisted == live1, "the leak report lists exactly the blocks of this test that are still outstanding");
 #ifdef LL2C_TRANSLATED
-    if (live1) CHECK(listed[0] == a, "... namely this block");
+    if (live1 == 1) CHECK(listed[0] == a, "... namely this block");
+    if (live1 == 2) CHECK((listed[0] == a && listed[1] == a2) || (listed[0] == a2 && listed[1] == a), "... namely these two blocks, each once");
 #endif
   }
   /* ---- test 2 */
@@ -86,3 +89,4 @@ HARNESS(harness_two_tests_1_5) { body(1, 5); }
 HARNESS(harness_two_tests_1_4) { body(1, 4); }
 HARNESS(harness_two_tests_3_3) { body(3, 3); }
 HARNESS(harness_two_tests_0_0) { body(0, 0); }
+HARNESS(harness_two_tests_9_0) { body(9, 0); }   /* two leaks in test 1 (run with ONE hash bucket: they share a chain); test 2 clean */
